@@ -675,4 +675,524 @@ theorem comma_roundtrip_aux (hj : Gen.Registry.commaJoin = [',', ' ']) (xs : Lis
       simp only [List.map_cons] at hr ⊢
       simp only [commaPieces, if_true, (h e (by simp)).2.2, hr]
 
+
+
+
+/-! ### the value tree: pure lookup, locality of assignments, inheritance -/
+
+/-- what `getSpecific(network, channel)()` returns, read off a tree in which the nodes exist -/
+def resolve {α : Type} (x : Var α) : Option Str → Option Str → Option α
+  | some n, some c =>
+    match findKey n x.nets, findKey c x.chans with
+    | some nv, some cv =>
+      (match findKey c nv.chans with
+       | some ncv => some (if nv.wasSet || ncv.wasSet then ncv.value else cv.value)
+       | none => none)
+    | _, _ => none
+  | some n, none => (findKey n x.nets).map (·.value)
+  | none, some c => (findKey c x.chans).map (·.value)
+  | none, none => some x.value
+
+theorem keyEq_trans {a b c : Str} (h1 : keyEq a b = true) (h2 : keyEq a c = true) : keyEq b c = true := by
+  unfold keyEq at *
+  simp at *
+  rw [← h1, h2]
+
+theorem findKey_updKey_ne {β : Type} (k q : Str) (f : β → β) (l : List (Str × β))
+    (h : keyEq k q = false) : findKey q (updKey k f l) = findKey q l := by
+  induction l with
+  | nil => rfl
+  | cons kv rest ih =>
+    obtain ⟨k', v⟩ := kv
+    simp only [updKey]
+    by_cases hk : keyEq k' k = true
+    · rw [if_pos hk]
+      simp only [findKey]
+      have : keyEq k' q = false := by
+        cases hq : keyEq k' q with
+        | false => rfl
+        | true => rw [keyEq_trans hk hq] at h; exact absurd h (by simp)
+      simp [this]
+    · rw [if_neg hk]
+      simp only [findKey]
+      split
+      · rfl
+      · exact ih
+
+theorem findKey_updKey_eq {β : Type} (k q : Str) (f : β → β) (l : List (Str × β))
+    (h : keyEq k q = true) : findKey q (updKey k f l) = (findKey q l).map f := by
+  induction l with
+  | nil => rfl
+  | cons kv rest ih =>
+    obtain ⟨k', v⟩ := kv
+    simp only [updKey]
+    by_cases hk : keyEq k' k = true
+    · rw [if_pos hk]
+      have hq : keyEq k' q = true := by
+        unfold keyEq at *; simp at *; rw [hk, h]
+      simp [findKey, hq]
+    · rw [if_neg hk]
+      have hq : keyEq k' q = false := by
+        cases hq : keyEq k' q with
+        | false => rfl
+        | true =>
+          exfalso; apply hk
+          unfold keyEq at *; simp at *; rw [hq, h]
+      simp [findKey, hq, ih]
+
+theorem findKey_map {β : Type} (q : Str) (g : β → β) (l : List (Str × β)) :
+    findKey q (l.map fun kv => (kv.1, g kv.2)) = (findKey q l).map g := by
+  induction l with
+  | nil => rfl
+  | cons kv rest ih =>
+    obtain ⟨k', v⟩ := kv
+    simp only [List.map_cons, findKey]
+    split
+    · rfl
+    · exact ih
+
+/-- does an assignment at `w` concern the probe `(n, c)`? -/
+def affects : Where → Option Str → Option Str → Bool
+  | .base, _, _ => true
+  | .net n, some n', _ => keyEq n n'
+  | .net _, none, _ => false
+  | .chan c, _, some c' => keyEq c c'
+  | .chan _, _, none => false
+  | .netChan n c, some n', some c' => keyEq n n' && keyEq c c'
+  | .netChan _ _, _, _ => false
+
+
+
+theorem resolve_assign_local {α : Type} (x : Var α) (w : Where) (v : α) (inh : Bool)
+    (n c : Option Str) (h : affects w n c = false) :
+    resolve (x.assign w v inh) n c = resolve x n c := by
+  cases w with
+  | base => simp [affects] at h
+  | net n0 =>
+    cases n with
+    | none => cases c <;> simp [Var.assign, resolve]
+    | some n' =>
+      have hk : keyEq n0 n' = false := by simpa [affects] using h
+      cases c <;> simp [Var.assign, resolve, findKey_updKey_ne _ _ _ _ hk]
+  | chan c0 =>
+    cases c with
+    | none => cases n <;> simp [Var.assign, resolve]
+    | some c' =>
+      have hk : keyEq c0 c' = false := by simpa [affects] using h
+      cases n <;> simp [Var.assign, resolve, findKey_updKey_ne _ _ _ _ hk]
+  | netChan n0 c0 =>
+    cases n with
+    | none => cases c <;> simp [Var.assign, resolve]
+    | some n' =>
+      by_cases hn : keyEq n0 n' = true
+      · cases c with
+        | none =>
+          simp only [Var.assign, resolve, findKey_updKey_eq _ _ _ _ hn, Option.map_map]
+          rfl
+        | some c' =>
+          have hk : keyEq c0 c' = false := by
+            cases hc : keyEq c0 c' with
+            | false => rfl
+            | true => simp [affects, hn, hc] at h
+          simp only [Var.assign, resolve, findKey_updKey_eq _ _ _ _ hn]
+          cases findKey n' x.nets with
+          | none => rfl
+          | some nv =>
+            cases findKey c' x.chans with
+            | none => rfl
+            | some cv => simp only [Option.map_some, findKey_updKey_ne _ _ _ _ hk]
+      · have hn' : keyEq n0 n' = false := by simpa using hn
+        cases c <;> simp [Var.assign, resolve, findKey_updKey_ne _ _ _ _ hn']
+
+/-- every node on the path of the probe exists and none of them was set explicitly -/
+def UnsetPath {α : Type} (x : Var α) : Option Str → Option Str → Prop
+  | some n, some c =>
+    ∃ nv ncv cv, findKey n x.nets = some nv ∧ findKey c nv.chans = some ncv ∧ findKey c x.chans = some cv ∧
+      nv.wasSet = false ∧ ncv.wasSet = false ∧ cv.wasSet = false
+  | some n, none => ∃ nv, findKey n x.nets = some nv ∧ nv.wasSet = false
+  | none, some c => ∃ cv, findKey c x.chans = some cv ∧ cv.wasSet = false
+  | none, none => True
+
+theorem findKey_inherit_chans {α : Type} (q : Str) (v : α) (l : List (Str × Leaf α)) :
+    findKey q (l.map fun kl => (kl.1, kl.2.inherit v)) = (findKey q l).map (Leaf.inherit v) :=
+  findKey_map q (Leaf.inherit v) l
+
+theorem findKey_inherit_nets {α : Type} (q : Str) (v : α) (l : List (Str × Net α)) :
+    findKey q (l.map fun kn => (kn.1, kn.2.inherit v)) = (findKey q l).map (Net.inherit v) :=
+  findKey_map q (Net.inherit v) l
+
+theorem resolve_setV_follow {α : Type} (x : Var α) (v : α) (inh : Bool) (n c : Option Str)
+    (h : UnsetPath x n c) : resolve (x.setV v inh) n c = some v := by
+  cases n with
+  | none =>
+    cases c with
+    | none => rfl
+    | some c' =>
+      obtain ⟨cv, h1, h2⟩ := h
+      simp only [resolve, Var.setV, findKey_inherit_chans, h1, Option.map_some]
+      simp [Leaf.inherit, h2, Leaf.setV]
+  | some n' =>
+    cases c with
+    | none =>
+      obtain ⟨nv, h1, h2⟩ := h
+      simp only [resolve, Var.setV, findKey_inherit_nets, h1, Option.map_some]
+      simp [Net.inherit, h2, Net.setV]
+    | some c' =>
+      obtain ⟨nv, ncv, cv, h1, h2, h3, h4, h5, h6⟩ := h
+      simp only [resolve, Var.setV, findKey_inherit_nets, findKey_inherit_chans, h1, h3, Option.map_some]
+      simp only [Net.inherit, h4, Bool.false_eq_true, if_false, Net.setV, findKey_inherit_chans, h2, Option.map_some]
+      simp [Leaf.inherit, h5, h6, Leaf.setV]
+
+
+
+
+theorem keyEq_refl (a : Str) : keyEq a a = true := by simp [keyEq]
+
+theorem findKey_append {β : Type} (q k : Str) (v : β) (l : List (Str × β)) :
+    findKey q (l ++ [(k, v)]) =
+      match findKey q l with
+      | some r => some r
+      | none => if keyEq k q then some v else none := by
+  induction l with
+  | nil => simp [findKey]
+  | cons kv rest ih =>
+    obtain ⟨k', v'⟩ := kv
+    simp only [List.cons_append, findKey]
+    split
+    · rfl
+    · exact ih
+
+/-- `base.get(c)` returning a node: it is the node now stored under `c`; nothing else moved -/
+theorem getChan_spec {α : Type} (C : Cls α) (B : Str) (cache : Cache) (x x' : Var α) (c : Str) (l : Leaf α)
+    (h : x.getChan C B cache c = (x', some l)) :
+    findKey c x'.chans = some l ∧ x'.nets = x.nets ∧ x'.value = x.value ∧ x'.wasSet = x.wasSet ∧
+      (∀ q r, findKey q x.chans = some r → findKey q x'.chans = some r) := by
+  unfold Var.getChan at h
+  split at h
+  · rename_i l0 h0
+    simp only [Prod.mk.injEq, Option.some.injEq] at h
+    obtain ⟨rfl, rfl⟩ := h
+    exact ⟨h0, rfl, rfl, rfl, fun _ _ hq => hq⟩
+  · rename_i h0
+    split at h
+    · simp at h
+    · rename_i v w raised _
+      simp only [Prod.mk.injEq] at h
+      obtain ⟨rfl, h2⟩ := h
+      split at h2
+      · simp at h2
+      · simp only [Option.some.injEq] at h2
+        subst h2
+        refine ⟨?_, rfl, rfl, rfl, ?_⟩
+        · simp [findKey_append, h0, keyEq_refl]
+        · intro q r hq
+          simp [findKey_append, hq]
+
+theorem getNet_spec {α : Type} (C : Cls α) (B : Str) (cache : Cache) (x x' : Var α) (n : Str) (nv : Net α)
+    (h : x.getNet C B cache n = (x', some nv)) :
+    findKey n x'.nets = some nv ∧ x'.chans = x.chans ∧ x'.value = x.value ∧ x'.wasSet = x.wasSet ∧
+      (∀ q r, findKey q x.nets = some r → findKey q x'.nets = some r) := by
+  unfold Var.getNet at h
+  split at h
+  · rename_i l0 h0
+    simp only [Prod.mk.injEq, Option.some.injEq] at h
+    obtain ⟨rfl, rfl⟩ := h
+    exact ⟨h0, rfl, rfl, rfl, fun _ _ hq => hq⟩
+  · rename_i h0
+    split at h
+    · simp at h
+    · rename_i v w raised _
+      simp only [Prod.mk.injEq] at h
+      obtain ⟨rfl, h2⟩ := h
+      split at h2
+      · simp at h2
+      · simp only [Option.some.injEq] at h2
+        subst h2
+        refine ⟨?_, rfl, rfl, rfl, ?_⟩
+        · simp [findKey_append, h0, keyEq_refl]
+        · intro q r hq
+          simp [findKey_append, hq]
+
+theorem netGetChan_spec {α : Type} (C : Cls α) (NB : Str) (cache : Cache) (nv nv' : Net α) (c : Str) (l : Leaf α)
+    (h : nv.getChan C NB cache c = (nv', some l)) :
+    findKey c nv'.chans = some l ∧ nv'.value = nv.value ∧ nv'.wasSet = nv.wasSet ∧
+      (∀ q r, findKey q nv.chans = some r → findKey q nv'.chans = some r) := by
+  unfold Net.getChan at h
+  split at h
+  · rename_i l0 h0
+    simp only [Prod.mk.injEq, Option.some.injEq] at h
+    obtain ⟨rfl, rfl⟩ := h
+    exact ⟨h0, rfl, rfl, fun _ _ hq => hq⟩
+  · rename_i h0
+    split at h
+    · simp at h
+    · rename_i v w raised _
+      simp only [Prod.mk.injEq] at h
+      obtain ⟨rfl, h2⟩ := h
+      split at h2
+      · simp at h2
+      · simp only [Option.some.injEq] at h2
+        subst h2
+        refine ⟨?_, rfl, rfl, ?_⟩
+        · simp [findKey_append, h0, keyEq_refl]
+        · intro q r hq
+          simp [findKey_append, hq]
+
+
+
+theorem getNetChan_spec {α : Type} (C : Cls α) (B : Str) (cache : Cache) (x x' : Var α) (n c : Str)
+    (nv : Net α) (l : Leaf α) (h : x.getNetChan C B cache n c = (x', some (nv, l))) :
+    findKey n x'.nets = some nv ∧ findKey c nv.chans = some l ∧ x'.chans = x.chans ∧
+      x'.value = x.value ∧ x'.wasSet = x.wasSet := by
+  unfold Var.getNetChan at h
+  split at h
+  · simp at h
+  · rename_i x1 nv0 h1
+    have s1 := getNet_spec C B cache x x1 n nv0 h1
+    split at h
+    rename_i nv1 r h2
+    simp only [Prod.mk.injEq] at h
+    obtain ⟨rfl, h3⟩ := h
+    cases r with
+    | none => simp at h3
+    | some l0 =>
+      simp only [Option.map_some, Option.some.injEq, Prod.mk.injEq] at h3
+      obtain ⟨rfl, rfl⟩ := h3
+      have s2 := netGetChan_spec C _ cache nv0 nv1 c l0 h2
+      refine ⟨?_, s2.1, s1.2.1, s1.2.2.1, s1.2.2.2.1⟩
+      simp only
+      rw [findKey_updKey_eq n n _ _ (keyEq_refl n), s1.1]; rfl
+
+/-- `getSpecific(network, channel)()` returning a value: that value is what the pure lookup reads
+off the resulting tree (in which the nodes on the path now exist). -/
+theorem getSpecific_resolve {α : Type} (C : Cls α) (K : Kind) (B : Str) (s s' : St α)
+    (network channel : Option Str) (netOk chanOk : Bool) (v : α)
+    (h : getSpecific C K B s network channel netOk chanOk = (s', .val v)) :
+    resolve s'.var (if netOk then network else none) (if chanOk then channel else none) = some v ∧
+      s'.cache = s.cache := by
+  unfold getSpecific at h
+  split at h
+  · simp at h
+  · split at h
+    · simp at h
+    · simp only at h
+      generalize (if chanOk = true then channel else none) = ch at h ⊢
+      generalize (if netOk = true then network else none) = nw at h ⊢
+      cases nw with
+      | none =>
+        cases ch with
+        | none =>
+          simp only [Prod.mk.injEq, Out.val.injEq] at h
+          obtain ⟨rfl, rfl⟩ := h
+          exact ⟨rfl, rfl⟩
+        | some c =>
+          simp only at h
+          split at h
+          · simp at h
+          · rename_i x1 l h1
+            simp only [Prod.mk.injEq, Out.val.injEq] at h
+            obtain ⟨rfl, rfl⟩ := h
+            have sp := getChan_spec C B s.cache s.var x1 c l h1
+            exact ⟨by simp [resolve, sp.1], rfl⟩
+      | some n =>
+        cases ch with
+        | none =>
+          simp only at h
+          split at h
+          · simp at h
+          · rename_i x1 nv h1
+            simp only [Prod.mk.injEq, Out.val.injEq] at h
+            obtain ⟨rfl, rfl⟩ := h
+            have sp := getNet_spec C B s.cache s.var x1 n nv h1
+            exact ⟨by simp [resolve, sp.1], rfl⟩
+        | some c =>
+          simp only at h
+          split at h
+          · simp at h
+          · rename_i x1 nv ncv h1
+            split at h
+            · simp at h
+            · rename_i x2 cv h2
+              simp only [Prod.mk.injEq, Out.val.injEq] at h
+              obtain ⟨rfl, rfl⟩ := h
+              have sp1 := getNetChan_spec C B s.cache s.var x1 n c nv ncv h1
+              have sp2 := getChan_spec C B s.cache x1 x2 c cv h2
+              refine ⟨?_, rfl⟩
+              simp only [resolve, sp2.2.1, sp1.1, sp2.1, sp1.2.1]
+
+
+
+/-! ### reaching a node only adds children -/
+
+def ExtL {β : Type} (l l' : List (Str × β)) : Prop := ∀ q r, findKey q l = some r → findKey q l' = some r
+
+/-- `x'` has every node of `x`, with the same value and `_wasSet` -/
+def Extends {α : Type} (x x' : Var α) : Prop :=
+  x'.value = x.value ∧ x'.wasSet = x.wasSet ∧ ExtL x.chans x'.chans ∧
+  (∀ q nv, findKey q x.nets = some nv → ∃ nv', findKey q x'.nets = some nv' ∧
+      nv'.value = nv.value ∧ nv'.wasSet = nv.wasSet ∧ ExtL nv.chans nv'.chans)
+
+theorem findKey_congr {β : Type} (n q : Str) (l : List (Str × β)) (h : keyEq n q = true) :
+    findKey n l = findKey q l := by
+  induction l with
+  | nil => rfl
+  | cons kv rest ih =>
+    obtain ⟨k', v'⟩ := kv
+    have : keyEq k' n = keyEq k' q := by
+      unfold keyEq at h ⊢; simp at h ⊢; rw [h]
+    simp only [findKey, this, ih]
+
+theorem ExtL.refl {β : Type} (l : List (Str × β)) : ExtL l l := fun _ _ h => h
+
+theorem ExtL.append {β : Type} (l : List (Str × β)) (k : Str) (v : β) : ExtL l (l ++ [(k, v)]) := by
+  intro q r h; simp [findKey_append, h]
+
+theorem Extends.refl {α : Type} (x : Var α) : Extends x x :=
+  ⟨rfl, rfl, ExtL.refl _, fun _ nv h => ⟨nv, h, rfl, rfl, ExtL.refl _⟩⟩
+
+theorem Extends.trans {α : Type} {x y z : Var α} (h1 : Extends x y) (h2 : Extends y z) : Extends x z := by
+  refine ⟨h2.1.trans h1.1, h2.2.1.trans h1.2.1, fun q r h => h2.2.2.1 q r (h1.2.2.1 q r h), ?_⟩
+  intro q nv h
+  obtain ⟨nv', a1, a2, a3, a4⟩ := h1.2.2.2 q nv h
+  obtain ⟨nv'', b1, b2, b3, b4⟩ := h2.2.2.2 q nv' a1
+  exact ⟨nv'', b1, b2.trans a2, b3.trans a3, fun q' r hr => b4 q' r (a4 q' r hr)⟩
+
+theorem getChan_extends {α : Type} (C : Cls α) (B : Str) (cache : Cache) (x : Var α) (c : Str) :
+    Extends x (x.getChan C B cache c).1 := by
+  unfold Var.getChan
+  split
+  · exact Extends.refl x
+  · split
+    · exact Extends.refl x
+    · exact ⟨rfl, rfl, ExtL.append _ _ _, fun _ nv h => ⟨nv, h, rfl, rfl, ExtL.refl _⟩⟩
+
+theorem getNet_extends {α : Type} (C : Cls α) (B : Str) (cache : Cache) (x : Var α) (n : Str) :
+    Extends x (x.getNet C B cache n).1 := by
+  unfold Var.getNet
+  split
+  · exact Extends.refl x
+  · split
+    · exact Extends.refl x
+    · refine ⟨rfl, rfl, ExtL.refl _, fun q nv h => ⟨nv, ?_, rfl, rfl, ExtL.refl _⟩⟩
+      simp [findKey_append, h]
+
+theorem netGetChan_ext {α : Type} (C : Cls α) (NB : Str) (cache : Cache) (nv : Net α) (c : Str) :
+    (nv.getChan C NB cache c).1.value = nv.value ∧ (nv.getChan C NB cache c).1.wasSet = nv.wasSet ∧
+      ExtL nv.chans (nv.getChan C NB cache c).1.chans := by
+  unfold Net.getChan
+  split
+  · exact ⟨rfl, rfl, ExtL.refl _⟩
+  · split
+    · exact ⟨rfl, rfl, ExtL.refl _⟩
+    · exact ⟨rfl, rfl, ExtL.append _ _ _⟩
+
+theorem getNetChan_extends {α : Type} (C : Cls α) (B : Str) (cache : Cache) (x : Var α) (n c : Str) :
+    Extends x (x.getNetChan C B cache n c).1 := by
+  unfold Var.getNetChan
+  have e1 := getNet_extends C B cache x n
+  split
+  · rename_i x1 h1
+    rw [h1] at e1; exact e1
+  · rename_i x1 nv0 h1
+    rw [h1] at e1
+    have s1 := getNet_spec C B cache x x1 n nv0 h1
+    split
+    rename_i nv1 r h2
+    have e2 := netGetChan_ext C (childName B (':' :: n)) cache nv0 c
+    rw [h2] at e2
+    simp only at e2 ⊢
+    refine Extends.trans e1 ⟨rfl, rfl, ExtL.refl _, ?_⟩
+    intro q nvq hq
+    by_cases hk : keyEq n q = true
+    · have hq0 : findKey q x1.nets = some nv0 := by rw [← findKey_congr n q _ hk]; exact s1.1
+      rw [hq] at hq0; cases hq0
+      refine ⟨nv1, ?_, e2.1, e2.2.1, e2.2.2⟩
+      simp only; rw [findKey_updKey_eq n q _ _ hk, hq]; rfl
+    · have hk' : keyEq n q = false := by simpa using hk
+      exact ⟨nvq, by simp only; rw [findKey_updKey_ne n q _ _ hk']; exact hq, rfl, rfl, ExtL.refl _⟩
+
+
+
+theorem reach_extends {α : Type} (C : Cls α) (B : Str) (cache : Cache) (x : Var α) (w : Where) :
+    Extends x (x.reach C B cache w).1 := by
+  cases w with
+  | base => exact Extends.refl x
+  | net n =>
+    have := getNet_extends C B cache x n
+    simp only [Var.reach]; exact this
+  | chan c =>
+    have := getChan_extends C B cache x c
+    simp only [Var.reach]; exact this
+  | netChan n c =>
+    have := getNetChan_extends C B cache x n c
+    simp only [Var.reach]; exact this
+
+theorem resolve_of_extends {α : Type} {x x' : Var α} (h : Extends x x') (n c : Option Str) (a : α)
+    (hr : resolve x n c = some a) : resolve x' n c = some a := by
+  obtain ⟨hv, _, hc, hn⟩ := h
+  cases n with
+  | none =>
+    cases c with
+    | none => simp only [resolve] at hr ⊢; rw [hv]; exact hr
+    | some c' =>
+      simp only [resolve] at hr ⊢
+      cases hf : findKey c' x.chans with
+      | none => rw [hf] at hr; simp at hr
+      | some l => rw [hf] at hr; rw [hc c' l hf]; exact hr
+  | some n' =>
+    cases c with
+    | none =>
+      simp only [resolve] at hr ⊢
+      cases hf : findKey n' x.nets with
+      | none => rw [hf] at hr; simp at hr
+      | some nv =>
+        rw [hf] at hr
+        obtain ⟨nv', h1, h2, _, _⟩ := hn n' nv hf
+        rw [h1]; simp only [Option.map_some] at hr ⊢; rw [h2]; exact hr
+    | some c' =>
+      simp only [resolve] at hr ⊢
+      cases hf : findKey n' x.nets with
+      | none => rw [hf] at hr; simp at hr
+      | some nv =>
+        cases hg : findKey c' x.chans with
+        | none => rw [hf, hg] at hr; simp at hr
+        | some cv =>
+          cases hh : findKey c' nv.chans with
+          | none => rw [hf, hg] at hr; simp only [hh] at hr; simp at hr
+          | some ncv =>
+            rw [hf, hg] at hr; simp only [hh] at hr
+            obtain ⟨nv', h1, _, h3, h4⟩ := hn n' nv hf
+            rw [h1, hc c' cv hg]; simp only [h4 c' ncv hh, h3]; exact hr
+
+/-- shape of an accepted `set` -/
+theorem setText_done {α : Type} (C : Cls α) (B : Str) (s s' : St α) (w : Where) (text : Str)
+    (h : setText C B s w text = (s', .done)) :
+    ∃ cur v, (s.var.reach C B s.cache w).2 = some cur ∧ C.set cur text = .ok v ∧
+      s' = ⟨(s.var.reach C B s.cache w).1.assign w v false, s.cache⟩ := by
+  unfold setText at h
+  split at h
+  · simp at h
+  · rename_i x1 cur hr
+    split at h
+    · rename_i v hv
+      simp only [Prod.mk.injEq, and_true] at h
+      exact ⟨cur, v, by rw [hr], hv, by rw [hr]; exact h.symm⟩
+    · simp at h
+    · simp at h
+
+/-- a `set` that does not succeed leaves exactly the tree that reaching the node leaves -/
+theorem setText_not_done {α : Type} (C : Cls α) (B : Str) (s : St α) (w : Where) (text : Str)
+    (h : (setText C B s w text).2 ≠ .done) :
+    (setText C B s w text).1 = ⟨(s.var.reach C B s.cache w).1, s.cache⟩ := by
+  unfold setText at h ⊢
+  split
+  · rename_i x1 hr; rw [hr]
+  · rename_i x1 cur hr
+    rw [hr] at h ⊢
+    simp only at h ⊢
+    split
+    · rename_i v hv; rw [hv] at h; simp at h
+    · rfl
+    · rfl
+
 end C15
